@@ -5,10 +5,10 @@ import LexVerif.Proof.Tables.Walk
 /-!
 Index ranges of the Dragonbox caches cover every `-minus_k` the writer can form from a finite float.
 
-`compute_nearest_normal`, `compute_left_closed_directed`, `compute_right_closed_directed`:
-`minus_k = floor_log10_pow2(e [- 1]) - KAPPA`; `compute_nearest_shorter`:
-`minus_k = floor_log10_pow2_minus_log10_4_over_3(e)`; the cache is indexed by `-minus_k - SMALLEST` (unchecked)
-and `floor_log2_pow10(-minus_k)` is evaluated. `e` ranges over `exponent()` of every finite non-zero float (`f64`: -1074…971, `f32`: -149…104).
+`compute_nearest_normal` (and the two directed variants): `minus_k = floor_log10_pow2(e) - KAPPA`;
+`compute_nearest_shorter`: `minus_k = floor_log10_pow2_minus_log10_4_over_3(e)`; the cache is indexed by
+`-minus_k - SMALLEST` (unchecked) and `floor_log2_pow10(-minus_k)` is evaluated. `e` ranges over `exponent()` of
+every finite non-zero float (`f64`: -1074…971, `f32`: -149…104).
 
 The right-closed directed variant (not called by `to_decimal`) uses `e - 1` when `shorter`; `e - 1` stays in the
 finite range for every float whose mantissa bits are zero and whose exponent is not the minimum. For the
@@ -18,40 +18,31 @@ table is not (`right_closed_f64_below_min`).
 namespace LexVerif.Proof.Tables.Dragonbox
 open LexVerif LexVerif.Spec.Tables LexVerif.Gen.Dragonbox LexVerif.Gen.Logs
 
-/-- `-minus_k` is a valid index of the cache `[smallest, largest]` and a documented argument of `floor_log2_pow10` -/
-def minusKOk (smallest largest : Int) (mk : Int) : Bool :=
-  decide (smallest ≤ -mk ∧ -mk ≤ largest ∧ floorLog2Pow10Lo ≤ -mk ∧ -mk ≤ floorLog2Pow10Hi)
+abbrev Normal64 := MinusKInRange F64.kappa smallestF64Pow5 largestF64Pow5 floorLog2Pow10Lo floorLog2Pow10Hi
+  F64.minFiniteExponent F64.maxFiniteExponent
+abbrev Shorter64 := MinusKInRange 0 smallestF64Pow5 largestF64Pow5 floorLog2Pow10Lo floorLog2Pow10Hi
+  F64.minFiniteExponent F64.maxFiniteExponent
+abbrev Normal32 := MinusKInRange F32.kappa smallestF32Pow5 largestF32Pow5 floorLog2Pow10Lo floorLog2Pow10Hi
+  F32.minFiniteExponent F32.maxFiniteExponent
+abbrev Shorter32 := MinusKInRange 0 smallestF32Pow5 largestF32Pow5 floorLog2Pow10Lo floorLog2Pow10Hi
+  F32.minFiniteExponent F32.maxFiniteExponent
 
-/-- slice `[lo, hi]` of a vector dumped from `vlo` -/
-def slice (l : List Nat) (vlo lo hi : Int) : List Nat := (l.drop (lo - vlo).toNat).take (hi - lo + 1).toNat
+theorem normal64_walk : allIdx (vecOk Normal64 floorLog10Pow2Lo floorLog10Pow2TabBias) 0 floorLog10Pow2TabBiased.toList = true := by
+  decide +kernel
+theorem normal32_walk : allIdx (vecOk Normal32 floorLog10Pow2Lo floorLog10Pow2TabBias) 0 floorLog10Pow2TabBiased.toList = true := by
+  decide +kernel
+theorem shorter64_walk :
+    allIdx (vecOk Shorter64 floorLog10Pow2MinusLog10_4Over3Lo floorLog10Pow2MinusLog10_4Over3TabBias) 0
+      floorLog10Pow2MinusLog10_4Over3TabBiased.toList = true := by decide +kernel
+theorem shorter32_walk :
+    allIdx (vecOk Shorter32 floorLog10Pow2MinusLog10_4Over3Lo floorLog10Pow2MinusLog10_4Over3TabBias) 0
+      floorLog10Pow2MinusLog10_4Over3TabBiased.toList = true := by decide +kernel
 
-def normalOk (kappa smallest largest : Int) (_ v : Nat) : Bool :=
-  minusKOk smallest largest ((v : Int) - floorLog10Pow2TabBias - kappa)
-
-def shorterOk (smallest largest : Int) (_ v : Nat) : Bool :=
-  minusKOk smallest largest ((v : Int) - floorLog10Pow2MinusLog10_4Over3TabBias)
-
-def normalSlice (lo hi : Int) : List Nat := slice floorLog10Pow2TabBiasedList floorLog10Pow2Lo lo hi
-def shorterSlice (lo hi : Int) : List Nat :=
-  slice floorLog10Pow2MinusLog10_4Over3TabBiasedList floorLog10Pow2MinusLog10_4Over3Lo lo hi
-
-theorem f64_range :
-    allIdx (normalOk F64.kappa smallestF64Pow5 largestF64Pow5) 0 (normalSlice F64.minFiniteExponent F64.maxFiniteExponent) = true
-    ∧ (normalSlice F64.minFiniteExponent F64.maxFiniteExponent).length = (F64.maxFiniteExponent - F64.minFiniteExponent + 1).toNat
-    ∧ allIdx (shorterOk smallestF64Pow5 largestF64Pow5) 0 (shorterSlice F64.minFiniteExponent F64.maxFiniteExponent) = true
-    ∧ (shorterSlice F64.minFiniteExponent F64.maxFiniteExponent).length = (F64.maxFiniteExponent - F64.minFiniteExponent + 1).toNat
+theorem sizes : floorLog10Pow2TabBiased.size = (floorLog10Pow2Hi - floorLog10Pow2Lo + 1).toNat
+    ∧ floorLog10Pow2MinusLog10_4Over3TabBiased.size = (floorLog10Pow2MinusLog10_4Over3Hi - floorLog10Pow2MinusLog10_4Over3Lo + 1).toNat
     ∧ floorLog10Pow2Lo ≤ F64.minFiniteExponent ∧ F64.maxFiniteExponent ≤ floorLog10Pow2Hi
-    ∧ floorLog10Pow2MinusLog10_4Over3Lo ≤ F64.minFiniteExponent ∧ F64.maxFiniteExponent ≤ floorLog10Pow2MinusLog10_4Over3Hi := by
-  decide +kernel
-
-theorem f32_range :
-    allIdx (normalOk F32.kappa smallestF32Pow5 largestF32Pow5) 0 (normalSlice F32.minFiniteExponent F32.maxFiniteExponent) = true
-    ∧ (normalSlice F32.minFiniteExponent F32.maxFiniteExponent).length = (F32.maxFiniteExponent - F32.minFiniteExponent + 1).toNat
-    ∧ allIdx (shorterOk smallestF32Pow5 largestF32Pow5) 0 (shorterSlice F32.minFiniteExponent F32.maxFiniteExponent) = true
-    ∧ (shorterSlice F32.minFiniteExponent F32.maxFiniteExponent).length = (F32.maxFiniteExponent - F32.minFiniteExponent + 1).toNat
-    ∧ floorLog10Pow2Lo ≤ F32.minFiniteExponent ∧ F32.maxFiniteExponent ≤ floorLog10Pow2Hi
-    ∧ floorLog10Pow2MinusLog10_4Over3Lo ≤ F32.minFiniteExponent ∧ F32.maxFiniteExponent ≤ floorLog10Pow2MinusLog10_4Over3Hi := by
-  decide +kernel
+    ∧ floorLog10Pow2MinusLog10_4Over3Lo ≤ F64.minFiniteExponent ∧ F64.maxFiniteExponent ≤ floorLog10Pow2MinusLog10_4Over3Hi
+    ∧ F64.minFiniteExponent ≤ F32.minFiniteExponent ∧ F32.maxFiniteExponent ≤ F64.maxFiniteExponent := by decide +kernel
 
 /-- one below the smallest f32 exponent `-minus_k = 47 > LARGEST_F32_POW5` (unreachable: see the header) -/
 theorem right_closed_f32_below_min :
@@ -64,9 +55,11 @@ theorem right_closed_f64_below_min :
 (`DIV_BY_5_THRESHOLD = ⌊log₂ 10^(⌊log₅ 2^(p+2)⌋ + κ + 1)⌋`, `FC_PM_HALF_LOWER = -κ - ⌊log₅ 2^κ⌋`), the exponent
 range is the IEEE one -/
 theorem consts :
-    F32.fcPmHalfLower = -F32.kappa - floorLog5Pow2 F32.kappa ∧ F32.divBy5Threshold = floorLog2Pow10 (floorLog5Pow2 (F32.mantissaSize + 2) + F32.kappa + 1)
-    ∧ F64.fcPmHalfLower = -F64.kappa - floorLog5Pow2 F64.kappa ∧ F64.divBy5Threshold = floorLog2Pow10 (floorLog5Pow2 (F64.mantissaSize + 2) + F64.kappa + 1)
-    ∧ F32.kappa = 1 ∧ F64.kappa = 2
+    F32.fcPmHalfLower = -F32.kappa - floorLog5Pow2 F32.kappa
+    ∧ F32.divBy5Threshold = floorLog2Pow10 (floorLog5Pow2 (F32.mantissaSize + 2) + F32.kappa + 1)
+    ∧ F64.fcPmHalfLower = -F64.kappa - floorLog5Pow2 F64.kappa
+    ∧ F64.divBy5Threshold = floorLog2Pow10 (floorLog5Pow2 (F64.mantissaSize + 2) + F64.kappa + 1)
+    ∧ F32.kappa = 1 ∧ F64.kappa = 2 ∧ F32.decimalDigits = 9 ∧ F64.decimalDigits = 17
     ∧ F32.minFiniteExponent = F32.denormalExponent ∧ F32.maxFiniteExponent = F32.maxExponent - 1
     ∧ F64.minFiniteExponent = F64.denormalExponent ∧ F64.maxFiniteExponent = F64.maxExponent - 1
     ∧ F32.denormalExponent = 1 - (127 + 23) ∧ F32.maxExponent = 255 - (127 + 23) ∧ F32.mantissaSize = 23
@@ -78,7 +71,7 @@ theorem consts :
 theorem floorLog2_samples :
     allIdx (fun _ (p : Nat × Nat) => decide (((p.2 : Int) - floorLog2ValBias) = floorLog2 p.1)) 0
       (List.zip floorLog2ArgList floorLog2ValBiasedList) = true
-    ∧ floorLog2ArgList.length = floorLog2ValBiasedList.length := by
+    ∧ floorLog2ArgList.length = floorLog2ValBiasedList.length ∧ 129 ≤ floorLog2ArgList.length := by
   decide +kernel
 
 /-- `pow64(10,e)`, `pow32(10,e)` are powers of ten -/
